@@ -241,7 +241,29 @@ def history(cell):
     return {'v': out[:2], 'n': n, 'nt': cell if len(ops) >= 2 else None}
 
 
-PARTS = {'isa': isa_cell, 'station': station, 'grid': grid, 'reject': reject, 'vacuum': vacuum, 'history': history}
+def bare_lines(cell):
+    """the same laws when station values are given as bare numbers (read in the preferred units: ft... yd, inHg, deg F by default) - zero included"""
+    import py_ballisticcalc as pb
+    U = pb.Unit
+    p_inhg, h = cell
+    temps = [-40, -20, -10, 0, 10, 20, 40, 60]
+    out = []
+    prev = None
+    for t in temps:
+        d = pb.Atmo(0, p_inhg, t, h).density_ratio
+        e = pb.Atmo(U.Yard(0), U.InHg(p_inhg), U.Fahrenheit(t), h).density_ratio
+        if d != e:
+            out.append({'msg': f'Atmo(0, {p_inhg}, {t}, {h}) with bare numbers has density ratio {d!r}; the same values as explicit quantities (yd, inHg, deg F) give {e!r}', 'key': None})
+        if prev is not None and not d < prev:
+            out.append({'msg': f'density ratio does not fall with temperature along bare values ... {t - 10 if t <= 20 else t - 20} -> {t} F at {p_inhg} inHg, humidity {h}: {prev!r} -> {d!r}', 'key': None})
+        prev = d
+    a0 = pb.Atmo.icao(0, 0).temperature >> U.Fahrenheit
+    if abs(a0 - 0.0) > 1e-9:
+        out.append({'msg': f'Atmo.icao(0, 0): temperature {a0!r} F, bare 0 means 0 in the preferred unit', 'key': None})
+    return {'v': out[:3], 'n': 2 * len(temps) + 1, 'nt': cell}
+
+
+PARTS = {'bare_lines': bare_lines, 'isa': isa_cell, 'station': station, 'grid': grid, 'reject': reject, 'vacuum': vacuum, 'history': history}
 OFFS = [0, 1, -1, 29.999, -29.999, 30, -30, 30.001, -30.001]
 
 
@@ -264,4 +286,5 @@ def plan(tier):
     import itertools
     depth = 3 if tier == 'quick' else 4
     hs = [[kind, a0, list(ops)] for kind in ('std', 'hot') for a0 in (0, 5000) for d in range(1, depth + 1) for ops in itertools.product(HOPS, repeat=d)]
-    return [('isa', alts), ('station', st), ('grid', gr), ('reject', [-1, -0.01, 100.01, 1e9, -1e-9, 101]), ('vacuum', vac), ('history', hs)]
+    bl = [[p_, h_] for p_ in (25.0, 29.92, 31.0) for h_ in (0, 0.5, 80)]
+    return [('bare_lines', bl), ('isa', alts), ('station', st), ('grid', gr), ('reject', [-1, -0.01, 100.01, 1e9, -1e-9, 101]), ('vacuum', vac), ('history', hs)]
